@@ -81,6 +81,7 @@ struct Env {
     int tid;
     bool flusher = false;
     int flush_iters = 0;
+    int flush_extra = 0;
     uint64_t seed;
   };
 
@@ -405,10 +406,12 @@ struct Env {
     }
     CPtr* priv = new CPtr();
     int it = 0;
+    int extra = w.flush_extra; // generations: keep passing reclamation points so that handed-over retire lists
+                               // (orphans) of short-lived threads are reclaimed too before the allocation census
     for (; it < 10000; ++it) {
       {
         xrt::Quiet q;
-        if (L.census_complete())
+        if (L.census_complete() && extra-- <= 0)
           break;
       }
       { typename R::region_guard rg; }
@@ -527,6 +530,7 @@ struct Env {
         fw.sh = sh;
         fw.weak = ctx.weak;
         fw.tid = 1;
+        fw.flush_extra = mode == 1 ? 12 : 0;
         xrt::ThreadSpec fs;
         fs.fn = flush_body;
         fs.arg = &fw;
@@ -541,11 +545,21 @@ struct Env {
       L.census(true);
       if (!L.err_kind.empty())
         break;
+      if (mode == 1 && ctx.verbose) {
+        fprintf(stderr, "ROUND %d live_blocks=%" PRIu64 "\n", round, xrt::heap_live_blocks());
+        if (round == rounds / 2 - 1 || round == rounds - 1)
+          xrt::heap_dump_live(0, round == rounds - 1 ? "end" : "mid");
+      }
       if (mode == 1) {
+        // bookkeeping = live heap blocks that are not nodes awaiting reclamation (flush dummies retired by the last
+        // flush thread legitimately stay pending until some later thread passes enough reclamation points)
+        uint64_t pending = L.undestroyed_nodes();
+        uint64_t live = xrt::heap_live_blocks();
+        uint64_t bookkeeping = live > pending ? live - pending : 0;
         if (round == rounds / 2 - 1)
-          blocks_mid = xrt::heap_live_blocks();
+          blocks_mid = bookkeeping;
         if (round == rounds - 1)
-          blocks_end = xrt::heap_live_blocks();
+          blocks_end = bookkeeping;
       }
     }
     {
